@@ -34,25 +34,21 @@ theorem updateState_finSent (f : Flow) (p : Pkt) :
         · rename_i h; simp [h.1]
         · simp
 
-theorem updateState_addr (f : Flow) (p : Pkt) :
-    (f.updateState p).v6 = f.v6 ∧ (f.updateState p).dst = f.dst ∧ (f.updateState p).dport = f.dport := by
-  unfold Flow.updateState
-  split
-  · exact ⟨rfl, rfl, rfl⟩
-  · split
-    · exact ⟨rfl, rfl, rfl⟩
-    · split
-      · exact ⟨rfl, rfl, rfl⟩
-      · split <;> exact ⟨rfl, rfl, rfl⟩
-
 theorem processPacket_flow (f : Flow) (p : Pkt) :
     (f.processPacket p).1.state = (f.updateState p).state ∧ (f.processPacket p).1.v6 = f.v6 ∧
     (f.processPacket p).1.dst = f.dst ∧ (f.processPacket p).1.dport = f.dport := by
-  obtain ⟨h1, h2, h3⟩ := updateState_addr f p
-  unfold Flow.processPacket
-  cases p.payload with
-  | none => exact ⟨rfl, h1, h2, h3⟩
-  | some d => exact ⟨rfl, h1, h2, h3⟩
+  obtain ⟨h0, h1, h2, h3, _⟩ := pre_fields f p
+  by_cases hi : (f.pre p).ignoreData = true
+  · unfold Flow.processPacket
+    simp only [hi, if_true]
+    exact ⟨h0, h1, h2, h3⟩
+  · have hi : (f.pre p).ignoreData = false := by simpa using hi
+    cases hp : p.payload with
+    | none => rw [processPacket_none f p hp]; exact ⟨h0, h1, h2, h3⟩
+    | some d =>
+      rw [processPacket_some' f p d hi hp]
+      obtain ⟨a0, a1, a2, a3, _⟩ := afterOoo_fields (f.pre p) p _
+      exact ⟨a0.trans h0, a1.trans h1, a2.trans h2, a3.trans h3⟩
 
 /-! ### routing inside a stream -/
 
